@@ -279,13 +279,157 @@ func specialNames() []string {
 
 func special(name string) irgen.Term { return irgen.Ref("p.@" + name) }
 
+// ---- values of every Go dynamic type the front-ends produce ----------------------------------
+//
+// A constant, a default or an enum member value is an `any`: what is in it
+// depends on the front-end (encoding/json with UseNumber: json.Number;
+// kin-openapi: float64; CUE: int64/float64; YAML passes: int, float64, ...)
+// and on what the document says, NOT on the kind of the type it sits on
+// (`{"type":"string","const":3}`). The probe loads every shape of part (a) and
+// a pass file setting defaults of every YAML type on every field kind, and
+// records every (role, kind, Go type) triple it sees in the resulting IRs;
+// part (d) then builds one IR per observed triple: "v|<role>|<kind>|<gotype>".
+
+type valueTriple struct{ Role, Kind, GoType string }
+
+func (t valueTriple) name() string { return "v|" + t.Role + "|" + t.Kind + "|" + t.GoType }
+
+func kindLabel(t ast.Type) string {
+	if t.Kind == ast.KindScalar && t.Scalar != nil {
+		return "scalar:" + string(t.Scalar.ScalarKind)
+	}
+	return string(t.Kind)
+}
+
+// observedValues lists the triples present in the schemas.
+func observedValues(schemas ast.Schemas, into map[valueTriple]bool) {
+	anyType(schemas, func(t ast.Type) bool {
+		if t.Kind == ast.KindScalar && t.Scalar != nil && t.Scalar.Value != nil {
+			into[valueTriple{"const", kindLabel(t), fmt.Sprintf("%T", t.Scalar.Value)}] = true
+		}
+		if t.Default != nil {
+			into[valueTriple{"default", kindLabel(t), fmt.Sprintf("%T", t.Default)}] = true
+		}
+		if t.Kind == ast.KindEnum && t.Enum != nil {
+			for _, m := range t.Enum.Values {
+				if m.Type.Kind == ast.KindScalar && m.Type.Scalar != nil {
+					into[valueTriple{"enum", kindLabel(m.Type), fmt.Sprintf("%T", m.Value)}] = true
+				}
+			}
+		}
+		return false
+	})
+}
+
+func mkValue(goType string) (any, bool) {
+	switch goType {
+	case "json.Number":
+		return json.Number("3"), true
+	case "int":
+		return int(3), true
+	case "int8":
+		return int8(3), true
+	case "int16":
+		return int16(3), true
+	case "int32":
+		return int32(3), true
+	case "int64":
+		return int64(3), true
+	case "uint":
+		return uint(3), true
+	case "uint8":
+		return uint8(3), true
+	case "uint16":
+		return uint16(3), true
+	case "uint32":
+		return uint32(3), true
+	case "uint64":
+		return uint64(3), true
+	case "float32":
+		return float32(1.5), true
+	case "float64":
+		return float64(1.5), true
+	case "string":
+		return "s", true
+	case "bool":
+		return true, true
+	case "<nil>":
+		return nil, true
+	case "[]interface {}":
+		return []any{json.Number("1"), "a"}, true
+	case "map[string]interface {}":
+		return map[string]any{"a": json.Number("1")}, true
+	}
+	return nil, false
+}
+
+// mkValueSpecial builds the type of a "v|role|kind|gotype" special.
+func mkValueSpecial(name string) (ast.Type, bool) {
+	parts := strings.Split(name, "|")
+	if len(parts) != 4 || parts[0] != "v" {
+		return ast.Type{}, false
+	}
+	v, ok := mkValue(parts[3])
+	if !ok {
+		return ast.Type{}, false
+	}
+	var base ast.Type
+	switch {
+	case strings.HasPrefix(parts[2], "scalar:"):
+		base = ast.NewScalar(ast.ScalarKind(strings.TrimPrefix(parts[2], "scalar:")))
+	case parts[2] == string(ast.KindArray):
+		base = ast.NewArray(ast.String())
+	case parts[2] == string(ast.KindMap):
+		base = ast.NewMap(ast.String(), ast.String())
+	case parts[2] == string(ast.KindStruct):
+		base = ast.NewStruct(ast.NewStructField("a", ast.String()))
+	case parts[2] == string(ast.KindRef):
+		base = ast.NewRef("p", "E")
+	case parts[2] == string(ast.KindEnum):
+		base = ast.NewEnum([]ast.EnumValue{{Type: ast.String(), Name: "a", Value: "a"}, {Type: ast.String(), Name: "b", Value: "b"}})
+	case parts[2] == string(ast.KindDisjunction):
+		base = ast.NewDisjunction(ast.Types{ast.String(), ast.NewScalar(ast.KindInt64)})
+	case parts[2] == string(ast.KindIntersection):
+		base = ast.NewIntersection([]ast.Type{ast.NewRef("p", "S")})
+	case parts[2] == string(ast.KindConstantRef):
+		base = ast.NewConstantReferenceType("p", "E", "a")
+	default:
+		return ast.Type{}, false
+	}
+	switch parts[1] {
+	case "const":
+		if base.Scalar == nil {
+			return ast.Type{}, false
+		}
+		base.Scalar.Value = v
+	case "default":
+		base.Default = v
+	case "enum":
+		if base.Scalar == nil {
+			return ast.Type{}, false
+		}
+		member := base
+		base = ast.NewEnum([]ast.EnumValue{{Type: member, Name: "a", Value: v}, {Type: member.DeepCopy(), Name: "b", Value: v}})
+	default:
+		return ast.Type{}, false
+	}
+	return base, true
+}
+
 // substitute replaces references to p.@name by the special type, keeping
 // the nullability of the position.
 func substitute(t *ast.Type) {
 	if t.Kind == ast.KindRef && t.Ref != nil && strings.HasPrefix(t.Ref.ReferredType, "@") {
-		if mk, ok := specials[strings.TrimPrefix(t.Ref.ReferredType, "@")]; ok {
+		name := strings.TrimPrefix(t.Ref.ReferredType, "@")
+		if mk, ok := specials[name]; ok {
 			n := t.Nullable
 			*t = mk()
+			t.Nullable = t.Nullable || n
+			return
+		}
+		if vt, ok := mkValueSpecial(name); ok {
+			n := t.Nullable
+			*t = vt
 			t.Nullable = t.Nullable || n
 			return
 		}
@@ -337,6 +481,13 @@ func cycleSupport() []irgen.ObjSpec {
 		{Name: "AliasS", T: irgen.Ref("p.S")},
 		{Name: "Rec", T: irgen.Struct1("next", true, irgen.Ref("p.Rec"))},
 		{Name: "Dangling", T: irgen.Ref("p.Missing")},
+		// aliases that are recursive through an array / a map
+		{Name: "ArrSelf", T: irgen.Array(irgen.Ref("p.ArrSelf"))},
+		{Name: "MapSelf", T: irgen.Map(irgen.Ref("p.MapSelf"))},
+		{Name: "ArrA", T: irgen.Array(irgen.Ref("p.ArrB"))},
+		{Name: "ArrB", T: irgen.Array(irgen.Ref("p.ArrA"))},
+		{Name: "MapArr", T: irgen.Map(irgen.Ref("p.ArrMap"))},
+		{Name: "ArrMap", T: irgen.Array(irgen.Ref("p.MapArr"))},
 	}
 }
 
@@ -350,14 +501,14 @@ type irInput struct {
 // depth (leaves: the default ones + dangling and cyclic references + the
 // enum flavours + the specials), placed as the type of object Root and as a
 // required / optional field of struct Root.
-func irSpace(thorough bool, reachable map[string]bool) []irInput {
+func irSpace(thorough bool, reachable map[string]bool, values []string) []irInput {
 	// ordinary leaves (the quick tier keeps one representative per kind: the
 	// ordinary terms are C06's subject; this part is about the abnormal ones)
 	leaves := []irgen.Term{irgen.S("string"), irgen.S("int64"), irgen.S("any"), irgen.Const("str"), irgen.Enum("str"), irgen.Ref("p.S"), irgen.Ref("p.E"), irgen.Ref("p.K"), irgen.ConstRef("p.E"), irgen.Slot()}
 	if thorough {
 		leaves = append([]irgen.Term{}, irgen.DefaultLeaves()...)
 	}
-	refs := []string{"p.Missing", "q.Missing", "p.Root", "p.Cyc1", "p.Count", "p.AliasS", "p.Rec", "p.Dangling", "p.T"}
+	refs := []string{"p.Missing", "q.Missing", "p.Root", "p.Cyc1", "p.Count", "p.AliasS", "p.Rec", "p.Dangling", "p.T", "p.ArrSelf", "p.MapSelf", "p.ArrA", "p.MapArr"}
 	if thorough {
 		refs = append(refs, "p.Self")
 	}
@@ -416,6 +567,15 @@ func irSpace(thorough bool, reachable map[string]bool) []irInput {
 		}
 		spec.Name = place + ":" + t.String()
 		out = append(out, irInput{ID: spec.Name, Spec: spec, Size: t.Size()*4 + len(place)})
+	}
+	// one IR per observed (role, kind, Go type) value triple (thorough: also
+	// inside an array, a map and a union)
+	for _, v := range values {
+		t := special(v)
+		terms = append(terms, t)
+		if thorough {
+			terms = append(terms, irgen.Array(t), irgen.Map(t), irgen.Disj(t, irgen.S("string")), irgen.Nullable(t))
+		}
 	}
 	for _, t := range terms {
 		add("root", irgen.WithRoot(t), t)
